@@ -118,6 +118,13 @@ def oracle_c15(st, info, snaps):
             if not same(snap, obj):
                 raise Violation("inputs-unchanged", f"{info.kind} ({info.outcome}) changed the {label} it was given",
                                 cls=_cls("inputs-unchanged", info), op=info.kind, what=label)
+    if info.inplace:
+        # an in-place operation changes values of its target - never the dimension set of any array
+        st.cnt("dims-untouched-by-inplace-op")
+        for a, s_ in snaps:
+            if dims_sig(a.dims) != s_[0]:
+                raise Violation("inputs-unchanged", f"{info.kind} ({info.outcome}) changed the dimension set (labels) of an array over {[d[0] for d in s_[0]]}",
+                                cls=_cls("inputs-unchanged", info), op=info.kind, what="dims")
     if info.outcome != "ret":
         return
     for r in info.results:
@@ -271,7 +278,8 @@ def oracle_c05(st, info, snaps):
         if t.values.dtype != np.float64 and float(np.array(want).astype(t.values.dtype)) != want:
             continue  # lossy cast into an integer / float32 target: the property does not define it
         got = float(t.values[idx])
-        ok = (got == want) if exact else (abs(got - want) <= 1e-9 * max(1.0, scale * svals.size))
+        rtol = 1e-9 if svals.dtype == np.float64 else 1e-4  # a float32 source is summed in float32
+        ok = (got == want) if (exact and svals.dtype != np.float32) else (abs(got - want) <= rtol * max(1.0, scale * svals.size))
         if not ok:
             raise Violation("source-summed-by-label", f"region entry {idx} (labels {lab}) is {got}, the by-label sum of the source is {want} "
                             f"(source over {sletters}, key form {form})", cls="source-summed-by-label", **tags)
@@ -416,9 +424,11 @@ def gen_op(rng, st, cfg):
         return {"op": "stock_compute", "k": rng.randint(0, 3), "prms": rng.weighted([("keep", 2), ("good", 3), ("bad", 2), ("singular_last", 2)])}
     if kind == "lifetime":
         def prm():
-            how = rng.weighted([("num", 2), ("ref", 3), ("fresh", 3)])
+            how = rng.weighted([("num", 2), ("ref", 3), ("fresh", 3), ("twin_same_letters", 1)])
             if how == "num":
                 return {"how": "num"}
+            if how == "twin_same_letters":
+                return {"how": how, "pos": rng.randint(0, 3), "more": rng.chance(0.5), "vseed": rng.randint(0, 10 ** 6)}
             if how == "ref":
                 return {"how": "ref", "slot": rng.randint(0, 15)}
             return {"how": "fresh", "dims": gen_dims(rng, st, 0, 3), "vseed": rng.randint(0, 10 ** 6)}
@@ -426,12 +436,12 @@ def gen_op(rng, st, cfg):
                 "prm": [prm(), prm()], "via": rng.choice(["ctor", "set_prms"])}
     if kind == "stock":
         op = {"op": "stock", "cls": rng.choice(["simple", "inflow", "stockdriven"]), "dims": gen_dims(rng, st, 0, 3), "solver": rng.choice(["manual", "lapack"]),
-              "vseed": rng.randint(0, 10 ** 6), "lt": rng.weighted([("class", 3), ("instance", 2), ("instance_other", 1 if rng.chance(fp) else 0)])}
+              "vseed": rng.randint(0, 10 ** 6), "lt": rng.weighted([("class", 3), ("instance", 2), ("instance_twin", 1), ("instance_other", 1 if rng.chance(fp) else 0)])}
         for role in ("stock", "inflow", "outflow"):
             if rng.chance(0.5):
                 op[role] = "ok"
         if rng.chance(fp * 2):
-            f1 = rng.choice(["time_not_first", "other_dims", "fewer_dims"])
+            f1 = rng.choice(["time_not_first", "other_dims", "fewer_dims", "twin_dims"])
             if f1 == "time_not_first":
                 op["f1"] = f1
             else:
